@@ -337,7 +337,9 @@ def emulated_subchannel(
       fc_fused_activation_function
       == schema_py_generated.ActivationFunctionType.RELU
   ):
-    activation_output.name += b'_relu'
+    activation_output.name = transformation_utils._get_unique_tensor_name(  # pylint: disable=protected-access
+        activation_output.name + b'_relu', transformation_input.subgraph
+    )
     relu_input_id = transformation_utils.add_new_activation_tensor(
         activation_output.name + b'_relu_input',
         activation_output.shape,
